@@ -18,8 +18,8 @@ Open Scope Z_scope.
    however large, with and without jitter, every oracle value. *)
 Theorem C19_bounded : forall b n r,
   bounds (set_default b) -> 0 <= n ->
-  exists d, snd (dur_for_attempt b n r) = Dur (d * millisecond) /\
-            0 <= d <= cap (set_default b).
+  exists ns, snd (dur_for_attempt b n r) = Dur ns /\
+             0 <= ns <= cap (set_default b) * millisecond.
 Proof. exact dfa_bounded. Qed.
 
 (* Per-attempt query without jitter: exactly min(cap, base * factor^n) ms.
@@ -85,12 +85,29 @@ Theorem C19_factor_one_constant : forall b n,
   factor b = 1 -> 0 <= n -> expo b n = Z.min (cap b) (base b).
 Proof. exact expo_factor_1. Qed.
 
-(* With jitter the delay lies in [0, min(cap, base * factor^n)) ms, for every oracle value. *)
+(* With jitter the delay lies between zero and min(cap, base * factor^n) ms, for every
+   value r the random source may answer (r : Z is arbitrary; the delay is a Duration in
+   ns, not necessarily a whole number of ms) ... *)
 Theorem C19_jitter_range : forall b n r,
   no_jitter b = false -> bounds (set_default b) -> 0 <= n ->
-  exists d, snd (dur_for_attempt b n r) = Dur (d * millisecond) /\
-            0 <= d < expo (set_default b) n.
+  exists ns, snd (dur_for_attempt b n r) = Dur ns /\
+             0 <= ns < expo (set_default b) n * millisecond.
 Proof. exact dfa_jitter. Qed.
+
+(* ... the model allows every Duration of that range (it does not fix how the draw is
+   made), and the code's whole-millisecond draw rand.Intn(d) * time.Millisecond, d =
+   min(cap, base * factor^n), is one admissible way. *)
+Theorem C19_jitter_any_in_range : forall b n ns,
+  no_jitter b = false -> bounds (set_default b) -> 0 <= n ->
+  0 <= ns < expo (set_default b) n * millisecond ->
+  snd (dur_for_attempt b n ns) = Dur ns.
+Proof. exact dfa_jitter_onto. Qed.
+
+Theorem C19_jitter_ms_draw_admissible : forall b n k,
+  no_jitter b = false -> bounds (set_default b) -> 0 <= n ->
+  snd (dur_for_attempt b n (k * millisecond)) =
+  Dur ((k mod expo (set_default b) n) * millisecond).
+Proof. exact ms_draw_admissible. Qed.
 
 (* The executable saturating computation used by the model runner is the formula. *)
 Theorem C19_exec_is_formula : forall b n,
@@ -133,7 +150,7 @@ Example C19_example :
   snd (dur_seq (fresh true 20 3 1000) [0; 0; 0; 0; 0; 0])
   = [Dur 20000000; Dur 60000000; Dur 180000000; Dur 540000000; Dur 1000000000; Dur 1000000000] /\
   snd (dur_for_attempt (fresh true 20 3 1000) 2147483648 0) = Dur 1000000000 /\
-  snd (dur_for_attempt (fresh false 20 3 1000) 2 1234567) = Dur 127000000 /\
+  snd (dur_for_attempt (fresh false 20 3 1000) 2 1234567890) = Dur 154567890 /\
   snd (dur_for_attempt (fresh false 5 2 (-1)) 0 7) = Panic.
 Proof. repeat split; try reflexivity; cbn; discriminate. Qed.
 
@@ -148,6 +165,8 @@ Print Assumptions C19_monotone_delays.
 Print Assumptions C19_reaches_cap.
 Print Assumptions C19_factor_one_constant.
 Print Assumptions C19_jitter_range.
+Print Assumptions C19_jitter_any_in_range.
+Print Assumptions C19_jitter_ms_draw_admissible.
 Print Assumptions C19_exec_is_formula.
 Print Assumptions C19_defaults.
 Print Assumptions C19_huge_cap_refuted.
